@@ -29,7 +29,10 @@ RULE = ('models: the 7 scipy-backed classes, GaussianKDE (bw_method in {default,
         'uniform points over [min-3sd, max+3sd], the KDE bounds, far points and +-inf; probabilities: a fixed grid '
         'from 2e-7 to 1-2e-7 plus uniform draws plus the thresholds EPSILON, 1-EPSILON, 0, 1 and out-of-range '
         'values. A case is distinct by (class, options, data, points) and non-trivial when data are non-constant '
-        'or the points straddle the constant.')
+        'or the points straddle the constant. Search additionally: fit histories on ONE instance (A, B / A, constant, B / '
+        'constant, B with independent spreads; every class; queries exercised between fits) compared bitwise with a '
+        'history-free twin carrying the same parameters and with a fresh fit, and single calls with 6001 and 12500 '
+        'sorted points compared with the same points in chunks of 100 (GaussianKDE and one scipy family).')
 PARTIAL = ['kde_ppf_bracket_partial: the root-finder precondition is proved for 0 <= q <= Phi(5 sigma/h) - Phi(-5 sigma/h) '
            'only; for q between cdf(U) and 1-EPSILON it is false (kde_ppf_bracket_full_counterexample; real-code '
            'finding GaussianKDE.percent_point:q-above-cdf-at-upper-bound)',
@@ -962,6 +965,9 @@ def corr_forwarding(ctx):
         ref = gaussian_kde(m._params['dataset'], bw_method=m.bw_method, weights=m.weights)
         x = probes(rng, data)
         a, b = m.probability_density(x), ref.evaluate(x)
+        la, lb = call(m.log_probability_density, x), call(ref.logpdf, x)
+        if not (la[0] == 'ok' and lb[0] == 'ok' and bit_equal(la[1], lb[1])) and bad is None:
+            bad = {'spec': spec, 'query': 'log_probability_density', 'model': str(la[1])[:100], 'gaussian_kde.logpdf': str(lb[1])[:100]}
         seed = rng.randrange(2 ** 31)
         m.set_random_state(seed)
         s1 = m.sample(5)
@@ -1092,10 +1098,234 @@ def examine(ctx, spec, data, rng, deep, counts):
     ctx.count(f'search.{spec["cls"]}')
 
 
+# ------------------------------------------------------------------ fit history on ONE instance
+LONG = {'cdf': 'cumulative_distribution', 'pdf': 'probability_density', 'ppf': 'percent_point',
+        'logpdf': 'log_probability_density', 'sample': 'sample'}
+
+
+def seeded_fit(m, data, seed):
+    st = np.random.get_state()
+    try:
+        np.random.seed(seed)
+        with np.errstate(all='ignore'):
+            m.fit(np.array(data, dtype=float))
+        return None
+    except Exception as e:  # noqa
+        return f'{type(e).__name__}: {str(e)[:80]}'
+    finally:
+        np.random.set_state(st)
+
+
+def exercise(m, data):
+    """touch every query (fills whatever a model caches lazily)"""
+    d = np.asarray(data, dtype=float)
+    x = np.array([float(np.min(d)), float(np.median(d)), float(np.max(d))])
+    for f, a in ((m.cumulative_distribution, x), (m.probability_density, x), (m.log_probability_density, x),
+                 (m.percent_point, np.array([0.2, 0.7])), (m.sample, 3)):
+        call(f, a)
+    inst = inst_of(m)
+    if type(inst).__name__ == 'GaussianKDE' and inst._constant_value is None:
+        call(inst.percent_point, np.array([0.4]), method='bisect')
+
+
+def twin_of(m, spec):
+    """an instance WITHOUT history carrying the same fitted parameters (`_set_params(_get_params())`)"""
+    inst = inst_of(m)
+    if spec['cls'] == 'Univariate':
+        t = type(inst)()
+    else:
+        t = build(spec)
+    t._set_params(inst._get_params())
+    t.fitted = True
+    return t
+
+
+def history_comparable(spec):
+    """may the refitted instance be compared with a FRESH instance fitted on the last sample?  Not for a
+    TruncatedGaussian without explicit bounds and a GaussianKDE without explicit sample_size: they keep
+    `min/max` resp. `_sample_size` of the first fit (recorded under property C19), which changes the fitted
+    PARAMETERS of the refit, not the coherence of the queries with them."""
+    if spec['cls'] == 'TruncatedGaussian':
+        return 'minimum' in spec['opts']
+    if spec['cls'] == 'GaussianKDE':
+        return 'sample_size' in spec['opts']
+    return True
+
+
+def examine_history(ctx, spec, history, seeds, rng, counts, deep=False):
+    """fit A; query; [fit K; query;] fit B on ONE instance.  Afterwards every query must be a function of the
+    parameters of the LAST fit: bitwise equal to a twin without history, (where comparable) to a fresh
+    instance fitted on the last sample, and the C03 laws must hold."""
+    m = build(spec)
+    for k, (data, seed) in enumerate(zip(history, seeds)):
+        err = seeded_fit(m, data, seed)
+        if err is not None:
+            ctx.count(f'history.{spec["cls"]}.fit-raises')
+            return
+        if k < len(history) - 1:
+            exercise(m, data)
+    last = np.asarray(history[-1], dtype=float)
+    ctx.count(f'history.{spec["cls"]}')
+    seen = set()
+
+    def report(kind, inp, obs, req, key=None):
+        key = key or class_key(spec, m, kind)
+        counts['failures'] += 1
+        if key in seen or sum(1 for f in ctx.failing if f['class'] == key) >= 3:
+            return
+        seen.add(key)
+        ctx.fail_input(entry(spec['cls'], kind), dict(inp, spec=spec, history=[[float(v) for v in d] for d in history],
+                                                      seeds=list(seeds), law=kind), obs, req, key)
+    refs = []
+    try:
+        refs.append(('an instance without history carrying the same parameters', twin_of(m, spec)))
+    except Exception as e:  # noqa
+        ctx.count(f'history.{spec["cls"]}.twin-raises:{type(e).__name__}')
+    if history_comparable(spec):
+        f = build(spec)
+        if seeded_fit(f, last, seeds[-1]) is None:
+            refs.append(('a fresh instance fitted on the last sample', f))
+    x = probes(rng, last) if len(np.unique(last)) > 1 else np.array(const_points(rng, float(last[0])))
+    qs = np.array([1e-6, 0.01, 0.2, 0.5, 0.8, 0.99, 1 - 1e-6, rng.random()])
+    cls = spec['cls'] if spec['cls'] != 'Univariate' else type(inst_of(m)).__name__
+    for what, ref in refs:
+        for q, arg in (('cdf', x), ('pdf', x), ('ppf', qs), ('logpdf', x)):
+            a, b = call(getattr(m, LONG[q]), arg), call(getattr(ref, LONG[q]), arg)
+            counts['checks'] += len(arg)
+            same_ = a[0] == b[0] and (bit_equal(a[1], b[1]) if a[0] == 'ok' else a[1].split(':')[0] == b[1].split(':')[0])
+            if not same_:
+                if a[0] == 'ok' and b[0] == 'ok':
+                    i = int(np.argmax(~((a[1] == b[1]) | (np.isnan(a[1]) & np.isnan(b[1])))))
+                    obs = {'at': float(arg[i]), 'after_history': float(a[1][i]), 'reference': float(b[1][i])}
+                else:
+                    obs = {'after_history': str(a[1])[:100], 'reference': str(b[1])[:100]}
+                report(f'{q}:depends-on-fit-history', {'query': LONG[q], 'reference': what}, obs,
+                       f'{LONG[q]} after fit(A); queries; fit(B) equals (bitwise) that of {what}',
+                       key=f'{cls}.{LONG[q]}:depends-on-fit-history')
+    # the laws themselves on the refitted instance (coherence of pdf / cdf / ppf / logpdf with each other)
+    if spec['cls'] != 'TruncatedGaussian' or 'minimum' in spec['opts']:
+        def report2(kind, inp, obs, req):
+            key = class_key(spec, m, kind)
+            if key in KNOWN_SINGLE_FIT:
+                return report(kind, inp, obs, req)
+            report(kind, inp, obs, req + ' [after fit(A); queries; fit(B) on one instance]',
+                   key=f'{cls}.{LONG.get(kind.split(":")[0].split("[")[0], "probability_density")}:depends-on-fit-history')
+        if is_const(m):
+            counts['checks'] += const_laws(m, float(last[0]), rng, report2)
+        else:
+            d = np.asarray(inst_of(m)._params['dataset'], dtype=float).ravel() if is_kde(m) else last
+            counts['checks'] += laws(model_fns(m), d, rng, report2, deep)
+
+
+# single-fit classes that also show up after a refit and keep their own key
+KNOWN_SINGLE_FIT = ('GaussianKDE.percent_point:q-above-cdf-at-upper-bound',)
+
+
+def search_history(ctx, rng, counts, deep):
+    for cls in ALL + ('Univariate',):
+        for rep in range(4 if deep else (2 if cls == 'GaussianKDE' else 1)):
+            metas, hist = [], []
+            for _ in range(2):
+                meta, data = gen_data(rng, n=rng.choice([8, 20, 60, 150]))
+                metas.append(meta)
+                hist.append(data)
+            r = rng.random() if rep else 1.0          # the first history of a class is always plain A, B
+            if r < 0.25:
+                c = float(rng.uniform(-50, 50))
+                hist.insert(1, np.full(rng.choice([5, 12]), c))          # A, constant, B
+            elif r < 0.4:
+                hist[0] = np.full(rng.choice([5, 12]), float(rng.uniform(-50, 50)))   # constant, B
+            spec = gen_spec(rng, cls, hist[-1])
+            spec['opts'].pop('weights', None)
+            spec['opts'].pop('np_seed', None)
+            if cls == 'TruncatedGaussian' and rng.random() < 0.7:
+                allv = np.concatenate(hist)
+                pad = float(np.std(allv)) * rng.choice([0.01, 0.5])
+                spec['opts']['minimum'], spec['opts']['maximum'] = float(np.min(allv)) - pad, float(np.max(allv)) + pad
+            if cls == 'GaussianKDE':
+                spec['opts'].pop('sample_size', None)
+                if rng.random() < 0.4:
+                    spec['opts']['sample_size'] = rng.choice([10, 40, 120])
+            seeds = [rng.randrange(2 ** 31) for _ in hist]
+            examine_history(ctx, spec, hist, seeds, rng, counts, deep)
+
+
+# ------------------------------------------------------------------------ one large batch
+def examine_batch(ctx, spec, data, big_n, seed, counts):
+    """ONE call with `big_n` sorted probes must equal the same probes evaluated in chunks of 100 (every output
+    element depends on its own input element only) and be non-decreasing (cdf, ppf)."""
+    m = fit(spec, data)
+    if isinstance(m, tuple):
+        ctx.count(f'batch.{spec["cls"]}.fit-raises')
+        return
+    ctx.count(f'batch.{spec["cls"]}.{big_n}')
+    kde = is_kde(m)
+    rs = np.random.RandomState(seed)
+    d = np.asarray(data, dtype=float)
+    lo, hi, sd = float(d.min()), float(d.max()), float(d.std())
+    x = np.sort(rs.uniform(lo - 2 * sd, hi + 2 * sd, big_n))
+    q = np.sort(rs.uniform(1e-4, 1 - 1e-4, big_n))
+    cls = spec['cls']
+    for name, arg in (('cdf', x), ('pdf', x), ('ppf', q), ('logpdf', x)):
+        f = getattr(m, LONG[name])
+        whole = call(f, arg)
+        step = 1000 if (kde and name in ('pdf', 'logpdf')) else 100     # (scipy's evaluate costs ~15 ms per call)
+        parts = [call(f, arg[i:i + step]) for i in range(0, big_n, step)]
+        counts['checks'] += big_n
+        if whole[0] == 'err' or any(p_[0] == 'err' for p_ in parts):
+            errs = [whole[1]] if whole[0] == 'err' else [p_[1] for p_ in parts if p_[0] == 'err'][:1]
+            key = f'{cls}.{LONG[name]}:raises-on-batch'
+            if sum(1 for f_ in ctx.failing if f_['class'] == key) < 2:
+                counts['failures'] += 1
+                ctx.fail_input(f'{cls}.{LONG[name]}', {'spec': spec, 'data': d.tolist(), 'batch': big_n, 'seed': seed},
+                               errs[0], 'one call with many points returns values', key)
+            continue
+        chunks = np.concatenate([p_[1] for p_ in parts])
+        w = whole[1]
+        if kde and name in ('cdf', 'pdf', 'logpdf'):
+            # BLAS / scipy sum the kernels in an order that depends on the block shape: ulps, not zeros
+            okm = np.abs(w - chunks) <= 1e-12 * np.maximum(1.0, np.abs(chunks))
+        elif kde:
+            okm = np.abs(w - chunks) <= 1e-9 * max(hi - lo, sd)      # lanes share the solver's stopping test (C18)
+        else:
+            okm = (w == chunks) | (np.isnan(w) & np.isnan(chunks))
+        okm = okm if w.shape == chunks.shape else np.zeros(1, dtype=bool)
+        bad_mono = (name in ('cdf', 'ppf')) and w.shape == arg.shape and bool(np.any(np.diff(w) < -1e-9 * (1.0 if name == 'cdf' else max(hi - lo, sd))))
+        if not np.all(okm) or bad_mono:
+            key = f'{cls}.{LONG[name]}:depends-on-batch-size'
+            counts['failures'] += 1
+            if sum(1 for f_ in ctx.failing if f_['class'] == key) < 2:
+                if not np.all(okm) and w.shape == chunks.shape:
+                    i = int(np.argmin(okm))
+                    obs = {'index': i, 'at': float(arg[i]), 'one_call': float(w[i]), 'in_chunks_of_100': float(chunks[i]),
+                           'elements_differing': int(np.sum(~okm))}
+                elif w.shape != chunks.shape:
+                    obs = {'shape_one_call': list(w.shape), 'shape_chunks': list(chunks.shape)}
+                else:
+                    i = int(np.argmin(np.diff(w)))
+                    obs = {'index': i, 'values': [float(w[i]), float(w[i + 1])], 'not_monotone': True}
+                ctx.fail_input(f'{cls}.{LONG[name]}', {'spec': spec, 'data': d.tolist(), 'batch': big_n, 'seed': seed},
+                               obs, f'{LONG[name]} of {big_n} sorted points in ONE call = the same points in chunks of 100 '
+                               '(element i depends on input i only)' + (', non-decreasing' if name in ('cdf', 'ppf') else ''), key)
+
+
+def search_batch(ctx, rng, counts, deep):
+    fam = rng.choice([c for c in SCIPY if c != 'TruncatedGaussian'])      # truncnorm is slow on 12500 points
+    for cls in ('GaussianKDE', fam):
+        for big_n in (6001, 12500):
+            meta, data = gen_data(rng, kind=rng.choice(['normal', 'gamma', 'bimodal', 'uniform']),
+                                  n=rng.choice([12, 40, 90] if cls == 'GaussianKDE' else [20, 200]))
+            spec = gen_spec(rng, cls, data)
+            spec['opts'].pop('weights', None)
+            examine_batch(ctx, spec, data, big_n, rng.randrange(2 ** 31), counts)
+
+
 def search(ctx, deep):
     rng = ctx.rng('search')
     counts = {'checks': 0, 'failures': 0}
     reps = 10 if deep else 2
+    search_history(ctx, ctx.rng('search-history'), counts, deep)
+    search_batch(ctx, ctx.rng('search-batch'), counts, deep)
     for rep in range(reps):
         for cls in ALL + ('Univariate',):
             for j in range(2):
@@ -1139,9 +1369,16 @@ def search(ctx, deep):
 
 def replay(ctx, payload):
     inp = payload['input']
-    spec, data = inp['spec'], np.array(inp['data'], dtype=float)
     counts = {'checks': 0, 'failures': 0}
     before = len(ctx.failing)
+    if 'history' in inp:
+        examine_history(ctx, inp['spec'], [np.array(d, dtype=float) for d in inp['history']], inp['seeds'],
+                        vc.rng_for(0, 'replay'), counts, True)
+        return any(f['class'] == payload.get('class') for f in ctx.failing[before:])
+    if 'batch' in inp:
+        examine_batch(ctx, inp['spec'], np.array(inp['data'], dtype=float), inp['batch'], inp['seed'], counts)
+        return any(f['class'] == payload.get('class') for f in ctx.failing[before:])
+    spec, data = inp['spec'], np.array(inp['data'], dtype=float)
     for k in range(3):
         examine(ctx, spec, data, vc.rng_for(k, 'replay'), True, counts)
     return any(f['class'] == payload.get('class') for f in ctx.failing[before:])
